@@ -215,10 +215,30 @@ NoSetter == {
 Content == {<<"LaneletNetwork", g>> : g \in {"lanelets", "traffic_signs", "traffic_lights", "intersections", "areas"}}
            \cup {<<"Scenario", "obstacles">>}
 
+(* groups whose setter takes None and stores what the constructor stores for a left-out argument: the    *)
+(* transition  v -> "d"  exists (elsewhere a setter cannot "omit")                                           *)
+SetNone == {<<"Intersection", "crossings">>,
+            <<"IntersectionIncomingElement", "incoming_lanelets">>, <<"IntersectionIncomingElement", "successors_right">>,
+            <<"IntersectionIncomingElement", "successors_straight">>, <<"IntersectionIncomingElement", "successors_left">>,
+            <<"IntersectionIncomingElement", "left_of">>,
+            <<"StopLine", "traffic_sign_ref">>, <<"StopLine", "traffic_light_ref">>,
+            <<"StaticObstacle", "initial_signal_state">>, <<"StaticObstacle", "signal_series">>,
+            <<"StaticObstacle", "initial_center_lanelet_ids">>, <<"StaticObstacle", "initial_shape_lanelet_ids">>,
+            <<"DynamicObstacle", "initial_signal_state">>, <<"DynamicObstacle", "signal_series">>,
+            <<"DynamicObstacle", "initial_center_lanelet_ids">>, <<"DynamicObstacle", "initial_shape_lanelet_ids">>,
+            <<"DynamicObstacle", "prediction">>, <<"DynamicObstacle", "initial_meta_information_state">>,
+            <<"DynamicObstacle", "meta_information_series">>, <<"DynamicObstacle", "external_dataset_id">>,
+            <<"PhantomObstacle", "prediction">>,
+            <<"TrajectoryPrediction", "center_lanelet_assignment">>, <<"TrajectoryPrediction", "shape_lanelet_assignment">>,
+            <<"TrafficLight", "shape">>}
+            \* (not AreaBorder.adjacent / line_marking: their setters assert a non-None value)
+
 (* explicit transition tables where not every (a, b) is reachable by one mutator call *)
 SpecialPairs == [
   \* cycle setter keeps `active`; `active` setter keeps the cycle; nothing leads out of / into "no cycle"
-  TrafficLight_traffic_light_cycle |-> {<<"v1", "v2">>, <<"v2", "v1">>, <<"v1", "v3">>, <<"v3", "v1">>},
+  \* (out of "no cycle" only to v3: a light built without cycle stores active = False, and the cycle setter keeps it;
+  \*  into "no cycle" and other states the constructor would have normalised: see RawMut)
+  TrafficLight_traffic_light_cycle |-> {<<"v1", "v2">>, <<"v2", "v1">>, <<"v1", "v3">>, <<"v3", "v1">>, <<"d", "v3">>},
   \* add_planning_problem only adds: {} -> {1} -> {1, 2}
   PlanningProblemSet_planning_problem_list |-> {<<"d", "v3">>, <<"v3", "v1">>},
   \* the constructor turns configuration_id None into 1 as soon as a behaviour is given, the attributes do not:
@@ -231,7 +251,7 @@ SetPairs(c, g) ==
       ELSE IF k \in DOMAIN SpecialPairs THEN SpecialPairs[k]
       ELSE IF <<c, g>> \in Content
            THEN {<<a, b>> \in Dom(c, g) \X Dom(c, g) : ~SameValue(a, b) /\ "d" \in {a, b}}
-      ELSE {<<a, b>> \in Dom(c, g) \X Dom(c, g) : ~SameValue(a, b) /\ b # "d"}   \* a setter cannot "omit"
+      ELSE {<<a, b>> \in Dom(c, g) \X Dom(c, g) : ~SameValue(a, b) /\ (b # "d" \/ <<c, g>> \in SetNone)}
 SetName(c, g, a, b) == IF <<c, g>> \in Content \/ c = "PlanningProblemSet"
                        THEN (IF b = "d" THEN "remove:" ELSE "add:") \o g
                        ELSE "set:" \o g
@@ -282,7 +302,29 @@ MotAfter(mk)  == IF mk = "move" THEN "m1" ELSE "id"
 (*           groups at the argument tokens and prediction = signal_series = "d"; the history groups keep A's tokens    *)
 (*           and the descriptor carries the archive mark <<n, archived tokens>> (n = 0: no max_history_length given). *)
 (*   "upd"   DynamicObstacle.update_prediction(prediction [, signal_series]): two groups change at once                *)
-MutKinds == {"set", "move", "flat", "adv", "upd"}
+(*   "raw"   a public setter call that leaves the object in a state NO constructor call produces, because the         *)
+(*           constructor normalises what the setter stores as given (a light whose cycle is taken away keeps its       *)
+(*           stored `active`; a direction flag without a neighbour; ...).  Nothing is demanded about == with fresh     *)
+(*           objects (EITHER); demanded is the contract of the object itself: x == x, x == deepcopy(x), symmetry       *)
+(*           against a fresh object built from its current attribute values and against a fresh object with the old    *)
+(*           values, equal => equal hashes, hash() still total.   <<class, mutator, group, tokens it applies to>>       *)
+RawMut == {
+  <<"TrafficLight", "drop_cycle", "traffic_light_cycle", {"v1", "v2", "v3"}>>,               \* x.traffic_light_cycle = None
+  <<"TrafficLight", "empty_cycle", "traffic_light_cycle", {"v1", "v2", "v3"}>>,              \* x.traffic_light_cycle.cycle_elements = []
+  <<"TrafficLight", "none_cycle_elements", "traffic_light_cycle", {"v1", "v2", "v3"}>>,      \* ... .cycle_elements = None
+  <<"TrafficLight", "activate_without_cycle", "traffic_light_cycle", {"d"}>>,                \* x.active = True
+  <<"TrafficLightCycle", "none_cycle_elements", "cycle_elements", {"d", "v1", "v2", "v3"}>>, \* x.cycle_elements = None
+  <<"Lanelet", "flag_without_neighbour_left", "adjacent_left", {"d"}>>,        \* x.adj_left_same_direction = True
+  <<"Lanelet", "flag_without_neighbour_right", "adjacent_right", {"d"}>>,
+  <<"Lanelet", "drop_neighbour_left", "adjacent_left", {"v1", "v2", "v3"}>>,   \* x.adj_left = None (flag stays)
+  <<"Lanelet", "drop_neighbour_right", "adjacent_right", {"v1", "v2", "v3"}>>,
+  <<"LaneletNetwork", "lights_drop_cycle", "traffic_lights", {"v1", "v2"}>>,    \* the same through the contained light
+  <<"LaneletNetwork", "lights_empty_cycle", "traffic_lights", {"v1", "v2"}>>,
+  <<"Scenario", "lights_drop_cycle", "lanelet_network", {"v1", "v2"}>>,
+  <<"Scenario", "lights_empty_cycle", "lanelet_network", {"v1", "v2"}>> }
+RawNames(c) == {r[2] : r \in {q \in RawMut : q[1] = c}}
+IsRaw(c, name, a) == \E r \in RawMut : r[1] = c /\ r[2] = name /\ a[r[3]] \in r[4]
+MutKinds == {"set", "move", "flat", "adv", "upd", "raw"}
 Advanced == {"DynamicObstacle"}
 AdvInitial == <<"initial_state", "initial_signal_state", "initial_center_lanelet_ids", "initial_shape_lanelet_ids">>
 AdvDropped == {"prediction", "signal_series"}
@@ -319,6 +361,7 @@ IsMutation(c, mk, a, b) ==
                      /\ b["prediction"] # "d"                                       \* the prediction argument is required
                      /\ \A g \in DOMAIN a : g \in AdvDropped \/ a[g] = b[g]
                      /\ Differing(a, b) # {}
+    [] mk = "raw" -> a = b /\ RawNames(c) # {}                                     \* plus IsRaw(c, name, a)
     [] OTHER -> FALSE
 
 (* ---- well-formedness of the table ---- *)
@@ -332,7 +375,8 @@ TableOK ==
             /\ Cardinality({Canon[t] : t \in Dom(c, g)}) >= 2          \* something to perturb to
             /\ \A t \in Dom(c, g) : Canon[t] \in Dom(c, g)            \* "v1r" only next to "v1"
   /\ \A e \in Either : e[1] \in Classes /\ e[2] \in GroupsOf(e[1]) /\ e[3] \subseteq Dom(e[1], e[2])
-  /\ \A e \in NoSetter \cup Content \cup SpatialDefault : e[1] \in Classes /\ e[2] \in GroupsOf(e[1])
+  /\ \A r \in RawMut : r[1] \in Classes /\ r[3] \in GroupsOf(r[1]) /\ r[4] \subseteq Dom(r[1], r[3])
+  /\ \A e \in NoSetter \cup Content \cup SpatialDefault \cup SetNone : e[1] \in Classes /\ e[2] \in GroupsOf(e[1])
   /\ \A c \in DOMAIN Moved : c \in Classes /\ Moved[c] \subseteq GroupsOf(c)
   /\ \A c \in DOMAIN Flat : c \in DOMAIN Moved /\ Flat[c] \subseteq Moved[c]
   /\ \A c \in Classes : \A g \in GroupsOf(c) : \A pr \in SetPairs(c, g) :
